@@ -58,7 +58,9 @@ def to_arg(interp, a, name="arg"):
         return _dbl(a)
     if a is None:
         return Ptr(REAL, 0)
-    if hasattr(a, "_obj") or hasattr(a, "contents"):
+    if isinstance(a, ctypes.Array):
+        return Ptr(REAL, ctypes.addressof(a))
+    if isinstance(a, ctypes._Pointer):
         return Ptr(REAL, ctypes.cast(a, ctypes.c_void_p).value or 0)
     raise TypeError("cannot bridge FFI argument %r" % (a,))
 
